@@ -694,10 +694,10 @@ def gen_case(rng, i):
         script = ["numset", "numget", "get_state"]
     elif opening == 3 and chain != [0]:            # subclass replacement, then clear
         script = ["get", "set_sub", "clear", "get_state"]
-    tainted = False    # a nested in-place set happened since the snapshot was taken (see Model/StateStore.v wb_clean)
     elif opening == 4:                             # list and string indexing, negative indices
         script = ["listset", "listassign", "listget", "strset", "strget"]
     lkey = "a" if chain == [0] else "g1"
+    tainted = False    # a nested in-place set happened since the snapshot was taken (see Model/StateStore.v wb_clean)
     while len(ops) < max(n, len(script)):
         k = script[len(ops)] if len(ops) < len(script) else rng.choice(OPK)
         if k == "snap_write" and tainted:
